@@ -8,6 +8,7 @@
      streamflow.recovery.utils.GraphMapper.add / _update_token / get_equal_token
      streamflow.recovery.utils.GraphMapper.replace_token / move_token_to_root / remove_port
      streamflow.recovery.utils.GraphMapper.get_step_ids
+     streamflow.recovery.failure_manager.RollbackFailureManager._synchronize_workflows (mapper side: sync_mapper)
      streamflow.recovery.failure_manager._inject_tokens        (which tokens are put: injected_tokens)
      streamflow.recovery.failure_manager.RollbackFailureManager._recover (on_tokens of step.restore: restore_tokens)
      streamflow.workflow.step.ScatterStep.restore               (valid_tags / FilterTokenPort: scatter_valid_tags)
@@ -268,6 +269,23 @@ Section Ordered.
   Definition create_graph_mapper (dag : graph) (info : list (N * pinfo)) : option (mapper + merr) :=
     cgm_loop (length (gsucc dag) + 1) dag info empty_mapper (order (get_sinks dag)) [].
 End Ordered.
+
+(* ---------------- RollbackFailureManager._synchronize_workflows: its effect on the mapper ---------------- *)
+(* For every retry request whose job is being recovered by another recovery workflow (is_recovering), with [jt] the
+   JobToken of that job found by get_job_token among the mapper's token instances:
+       for token_id in (mapper.dag_tokens.successors(jt) if mapper.dag_tokens.contains(jt) else []):
+           mapper.move_token_to_root(token_id)
+   (the successor set is copied before the loop).  The other branch (_update_request / retry_request.workflow) and
+   the inter-workflow port wiring do not touch the mapper and are not modelled.  [jts]: the job tokens of the
+   recovering requests, in the order of [retry_requests]. *)
+Section Sync.
+  Variable order : list node -> list node.
+  Definition sync_step (m : mapper) (jt : N) : mapper :=
+    if contains (m_dag m) jt
+    then fold_left (move_token_to_root order) (order (successors (m_dag m) jt)) m
+    else m.
+  Definition sync_mapper (m : mapper) (jts : list N) : mapper := fold_left sync_step jts m.
+End Sync.
 
 (* ---------------- which tokens of a port are injected / regenerated ---------------- *)
 (* failure_manager._inject_tokens: the tokens put into a port of the recovery workflow are the AVAILABLE mapper
